@@ -925,3 +925,21 @@ N('gen-eigenvectors-clamp-in-two-steps', 'C05',
 M('hesseigen-scale-clamped-from-below', 'C09', 'input-normalised-to-unit-magnitude',
   [('LinAlg/UpperHessenbergEigen.h', "const Scalar scale = mat.cwiseAbs().maxCoeff();", "const Scalar scale = (std::max)(Scalar(1e-8), mat.cwiseAbs().maxCoeff());")],
   'matrices below 1e-8 are not normalised')
+
+# ----------------------------------------------------------------------------- F15
+M('complexshift-pairing-by-rounded-lambda', 'C02', 'neighbour-overwritten-only-for-a-conjugate-pair',
+  [('GenEigsComplexShiftSolver.h', "            if (Eigen::numext::imag(nu) != Scalar(0))", "            if (std::abs(Eigen::numext::imag(lambdaj)) > TypeTraits<Scalar>::epsilon())")],
+  'reverts fix F15')
+N('complexshift-pairing-test-operands-swapped', 'C02',
+  [('GenEigsComplexShiftSolver.h', "            if (Eigen::numext::imag(nu) != Scalar(0))", "            if (Scalar(0) != Eigen::numext::imag(nu))")], 'same exact test')
+
+# ----------------------------------------------------------------------------- F16
+M('schur-input-not-normalised', 'C09', 'input-normalised-to-unit-magnitude',
+  [('LinAlg/UpperHessenbergSchur.h', "        m_T.noalias() = mat / scale;\n", "        m_T.noalias() = mat;\n"),
+   ('LinAlg/UpperHessenbergSchur.h', "        m_T *= scale;\n        m_computed = true;", "        m_computed = true;")], 'reverts fix F16')
+M('schur-result-not-scaled-back', 'C09', 'input-normalised-to-unit-magnitude',
+  [('LinAlg/UpperHessenbergSchur.h', "        m_T *= scale;\n        m_computed = true;", "        m_computed = true;")], 'T describes mat / scale')
+
+# ----------------------------------------------------------------------------- F17
+M('doubleshift-applyYQ-stride-is-row-count', 'C13,C08', 'C13=pointer-kernel-contracts,C08=apply-methods-walk-the-argument-storage',
+  [('LinAlg/DoubleShiftQR.h', "        const Index stride = Y.outerStride();", "        const Index stride = Y.rows();")], 'reverts fix F17')
